@@ -35,6 +35,36 @@ NO_TRANSLATE = 0x0800
 
 import re as _re
 GROUP_OMIT_RE = _re.compile(r"^(?:noback |nofor )?(?:context|correct|pass[234])\s+\S*[{}][A-Za-z]\S*\s+\S*\?", _re.M)
+GROUP_REPL_RE = _re.compile(r"^(?:noback |nofor )?(?:context|correct|pass[234])\s+\S*\{([A-Za-z]+)\S*\s+\S*;[A-Za-z]", _re.M)
+
+
+def unclosed_group(text, op):
+    """the shape of finding F41: a rule whose action replaces the delimiters of a grouping (`;name`) and an input in which
+    an opening delimiter of that grouping has no closing one behind it"""
+    for m in GROUP_REPL_RE.finditer(text or ""):
+        g = _re.search(r"^grouping %s (\S+) " % _re.escape(m.group(1)), text, _re.M)
+        if not g:
+            continue
+        cs = []
+        for tok in _re.findall(r"\\x[0-9a-fA-F]{4}|\\.|.", g.group(1)):
+            cs.append(int(tok[2:], 16) if tok.startswith("\\x") else ord(tok[-1]))
+        if len(cs) != 2:
+            continue
+        u = common.unwide(op.split(" ")[6])
+        for i, c in enumerate(u):
+            if c != cs[0]:
+                continue
+            level = 0                      # (the nesting count of replaceGrouping)
+            for x in u[i + 1:]:
+                if x == cs[0]:
+                    level -= 1
+                if x == cs[1]:
+                    level += 1
+                if level == 1:
+                    break
+            if level != 1:
+                return True
+    return False
 
 
 def oracle(k):
@@ -176,6 +206,10 @@ def run(tier):
                 # the shape of finding F37: a rule that tests a grouping character and omits (`?`) makes removeGrouping
                 # rewrite the INPUT; lengths and positions are then reported relative to the rewritten input
                 sig += ":grouping-omit"
+            elif sig == "complete:fwd" and unclosed_group(k.case.meta.get("text"), k.op):
+                # the shape of finding F41: the action `;name` fails when the group is not closed in the pass input, and a
+                # failing action ends the pass as if the output were full
+                sig += ":grouping-replace-unclosed"
             v.violation("C04:%s" % sig, what + " | table=%s" % k.case.meta.get("table"),
                         {"script": k.case.setup + [k.op], "result": k.line[:3000]})
         if len(v.cov["samples"]) < 6 and k.R["ret"]:
